@@ -133,6 +133,7 @@ func loadProg(repoDir string, patterns []string, specDirs []string) (*Prog, erro
 		}
 	}
 	P.db.resolveLikes()
+	P.expandWholeMods()
 	if len(P.db.Errors) > 0 {
 		return P, fmt.Errorf("contract errors:\n  %s", strings.Join(P.db.Errors, "\n  "))
 	}
@@ -704,4 +705,66 @@ func (P *Prog) externKeys(f *ssa.Function) map[string]bool {
 		out["A:byte"] = true
 	}
 	return out
+}
+
+// expandWholeMods: "all T.f" where f is a struct-typed field also covers the
+// fields of that struct (their heaps carry the key of the nested type).
+func (P *Prog) expandWholeMods() {
+	named := map[string]types.Type{}
+	for _, t := range P.allNamed {
+		named[typeName(t)] = t
+	}
+	var expand func(key string, seen map[string]bool) []string
+	expand = func(key string, seen map[string]bool) []string {
+		if !strings.HasPrefix(key, "F:") || seen[key] {
+			return nil
+		}
+		seen[key] = true
+		i := strings.LastIndex(key, ".")
+		t, ok := named[key[2:i]]
+		if !ok {
+			return nil
+		}
+		st, ok := under(t).(*types.Struct)
+		if !ok {
+			return nil
+		}
+		var out []string
+		for j := 0; j < st.NumFields(); j++ {
+			f := st.Field(j)
+			if f.Name() != key[i+1:] {
+				continue
+			}
+			if fs, ok := under(f.Type()).(*types.Struct); ok {
+				if _, isNamed := f.Type().(*types.Named); isNamed {
+					for k := 0; k < fs.NumFields(); k++ {
+						nk := "F:" + typeName(f.Type()) + "." + fs.Field(k).Name()
+						out = append(out, nk)
+						out = append(out, expand(nk, seen)...)
+					}
+				}
+			}
+		}
+		return out
+	}
+	for _, c := range P.db.Funcs {
+		var extra []ModItem
+		have := map[string]bool{}
+		for _, m := range c.Modifies {
+			if m.Whole {
+				have[m.Key] = true
+			}
+		}
+		for _, m := range c.Modifies {
+			if m.Whole {
+				for _, k := range expand(m.Key, map[string]bool{}) {
+					if !have[k] {
+						have[k] = true
+						extra = append(extra, ModItem{Whole: true, Key: k, Src: m.Src})
+					}
+				}
+			}
+		}
+		c.Modifies = append(c.Modifies, extra...)
+	}
 }
